@@ -13,6 +13,7 @@ def line(entry, stream, full=True):
 
 class C11(LZCheckMixin, PropertyCheck):
     pid = "C11"
+    source_tables = ["LZ_DECODE_CONSTS"]   # tables / constants regenerated from /repo's source (gen/srctables.py)
     release_too = True
     rule = ("streams: every token sequence of <= 3/4 tokens over a small literal/length/displacement set (legal and reaching before the "
             "start) for LZ10 and LZ11; random legal token sequences with every length form (3..65808), displacement 1, the window edge, "
